@@ -39,6 +39,20 @@ def now():
     return max(time.process_time() - _T0[0], (time.time() - _T0[1]) / WALL_STRETCH)
 
 
+def sharded(iterable, spec):
+    """The slice of a deterministic enumeration that belongs to this shard (every shard count covers the whole enumeration exactly once)."""
+    n, i = int(spec.get("nshards", 1)), int(spec.get("shard", 0))
+    for idx, x in enumerate(iterable):
+        if idx % n == i:
+            yield x
+
+
+def multisets(alphabet, maxlen, minlen=1):
+    import itertools
+    for n in range(minlen, maxlen + 1):
+        yield from itertools.combinations_with_replacement(alphabet, n)
+
+
 def budget(spec):
     """Deadline on the shard clock now() after which a shard stops drawing new cases."""
     return now() + float(spec.get("budget_s", 60))
